@@ -213,7 +213,8 @@ def unjson(obj):
 # ----------------------------------------------------------------------------- generators
 T0 = ("call", "run_command", {"name": "t0", "run": "true"})
 E1 = ("call", "run_command", {"name": "e1", "run": "true"})
-VALUES = ["s", "", True, False, 0, 3, 1.5, None, [], ["a"], [1], {}, {"k": 1}, Other("()"), Other("set()"), [":t0"], [None]]
+VALUES = ["s", "", True, False, 0, 3, 1.5, None, [], ["a"], [1], {}, {"k": 1}, Other("()"), Other("set()"), [":t0"], [None],
+          [Other("1j")], {"k": Other("__import__('fractions').Fraction(1, 2)")}, [1, Other("__import__('decimal').Decimal('1.5')")], {"z": Other("1j")}, Other("1j")]
 NAMES_BAD = ["", " ", "a b", "foo\n", "a.b", "a/b", "a:b", ":a", "é", "a\n\n", "\nfoo", "a\tb", "-", "_", "0", "A-z_0"]
 DEPS_POOL = [":t0", "//d:t0", "//other:x", "//other:e1", ":e1", ":t0\n", "other:x", "t0", "", ":", "//:", "//other:", ":a b", "//other//x:y",
              "//other/:x", "/other:x", "//other:x:y", " :t0", ":zz", "//nodir:x", "//d/:t0"]
